@@ -1868,7 +1868,13 @@ class SolveUnc(_BaseODE):
             rb = self.rb
             if self.m is not None:
                 if unc:
-                    a_rb = self.invm[self._rb] * force[rb]
+                    if self.systype is float:
+                        a_rb = self.invm[self._rb] * force[rb]
+                    else:
+                        # complex coefficients: `get_su_eig` reduced `invm`
+                        # to the elastic modes; the rigid-body part of the
+                        # mass is in `imrb`
+                        a_rb = self.imrb * force[rb]
                 else:
                     a_rb = la.lu_solve(self.imrb, force[rb], check_finite=False)
             else:
